@@ -312,7 +312,7 @@ func (e *e2eAcc) Dial() (*refClient, error) {
 	if err != nil {
 		return nil, err
 	}
-	return &refClient{conn: cn, timeout: 3 * time.Second}, nil
+	return &refClient{conn: cn, timeout: 10 * time.Second}, nil
 }
 
 // ---- reference HTTP client over plaintext / HAP session ------------------------------------------------
